@@ -1,4 +1,6 @@
 import SimbodyProofs.C10_lemmas
+import SimbodyProofs.C10_compose
+import SimbodyProofs.C10_aba
 import Mathlib.Data.Matrix.Block
 import Mathlib.LinearAlgebra.Matrix.NonsingularInverse
 import Mathlib.Tactic.NormNum
@@ -98,27 +100,6 @@ theorem partition_distinct (es : List (Nat × Nat × Method)) (h : Alloc es) (N 
    collect_disjoint _ _ sel_zero_free _ h, collect_disjoint _ _ sel_free_known _ h,
    collect_lt _ _ N hN, collect_lt _ _ N hN⟩
 
-/-- **prescribe_exact for the model's own partition**: whatever the locks / Motions of the mobilizers, if q slots were
-allocated consecutively inside a q vector of length `q.length` and every mobilizer supplies `nq` values, then after
-`prescribeQ` with the lists and pool the model of `realizeSubsystemInstanceImpl` builds, the k-th prescribed slot holds
-the k-th pool value exactly and every slot outside `presQ ∪ zeroQ` is untouched. -/
-theorem prescribe_exact_of_partition {K : Type} [OfNat K 0] (q : List K)
-    (es : List (Nat × Nat × Method)) (vs : List (Method × List K))
-    (halloc : Alloc es) (hN : ∀ e ∈ es, e.1 + e.2.1 ≤ q.length)
-    (hvals : List.Forall₂ (fun e v => e.2.2 = v.1 ∧ v.2.length = e.2.1) es vs) :
-    let presQ := collect isPres es
-    let zeroQ := collect isZero es
-    let pool := collectVals isPres vs
-    ∃ hlen : presQ.length = pool.length,
-    (∀ (k : Nat) (hk : k < presQ.length), (prescribeQ q presQ pool zeroQ)[presQ[k]]? = some (pool[k]'(hlen ▸ hk))) ∧
-    (∀ j ∈ zeroQ, (prescribeQ q presQ pool zeroQ)[j]? = some 0) ∧
-    (∀ j, j ∉ presQ → j ∉ zeroQ → (prescribeQ q presQ pool zeroQ)[j]? = q[j]?) := by
-  intro presQ zeroQ pool
-  obtain ⟨h1, _, _, _, h5, _, _, _, h9, h10⟩ := partition_distinct es halloc q.length hN
-  have hlen : presQ.length = pool.length := collect_length_eq_vals isPres es vs hvals
-  obtain ⟨a, b, c, _⟩ := prescribe_exact q presQ pool zeroQ h1 hlen h9 h5
-  exact ⟨hlen, a, fun j hj => b j hj (h10 j hj), c⟩
-
 /-- non-vacuity: a Ball (4 slots allocated, 3 in use, prescribed), a free Pin, a zeroed Slider -/
 example : Alloc [(0, 3, Method.prescribed), (4, 1, Method.free), (5, 1, Method.zero)] := by
   unfold Alloc; simp
@@ -126,6 +107,169 @@ example : collect isPres [(0, 3, Method.prescribed), (4, 1, Method.free), (5, 1,
           collect isZero [(0, 3, Method.prescribed), (4, 1, Method.free), (5, 1, Method.zero)] = [5] ∧
           collect isFree [(0, 3, Method.prescribed), (4, 1, Method.free), (5, 1, Method.zero)] = [4] := by decide
 end partitionDistinct
+
+/-! ### the executed `partition` / `prescribe` / `knownUDot` honour locks and Motions -/
+section composed
+variable {K : Type} [Field K] [DecidableEq K]
+variable {mobs : List (MobIn K)} {q u udot : List K}
+
+/-- **A lock is honoured by the executed model.**  For a mobilizer `m` of the list (owning slots), after
+`prescribe mobs q u` (= `System::prescribe`) and the known-udot scatter of `realize(Acceleration)`:
+* Position lock: its q slots hold exactly the locked q, its u slots and udot slots hold 0;
+* Velocity lock: its q slots are untouched, its u slots hold exactly the locked u, its udot slots hold 0;
+* Acceleration lock: its q and u slots are untouched, its udot slots hold exactly the locked value;
+whatever Motion the mobilizer carries and whatever the other mobilizers do. -/
+theorem prescribe_honours_lock (hw : WellFormed mobs q.length u.length) (hud : udot.length = u.length)
+    {m : MobIn K} (hm : m ∈ mobs) (hnq : m.nq ≠ 0) :
+    (m.lockLevel = .position →
+      (∀ j, j < m.nq → (prescribe mobs q u).1[m.qx + j]? = m.lockedQ[j]?) ∧
+      (∀ j, j < m.nu → (prescribe mobs q u).2[m.ux + j]? = some 0) ∧
+      (∀ j, j < m.nu → (knownUDot mobs udot)[m.ux + j]? = some 0)) ∧
+    (m.lockLevel = .velocity →
+      (∀ j, j < m.nq → (prescribe mobs q u).1[m.qx + j]? = q[m.qx + j]?) ∧
+      (∀ j, j < m.nu → (prescribe mobs q u).2[m.ux + j]? = m.lockedU[j]?) ∧
+      (∀ j, j < m.nu → (knownUDot mobs udot)[m.ux + j]? = some 0)) ∧
+    (m.lockLevel = .acceleration →
+      (∀ j, j < m.nq → (prescribe mobs q u).1[m.qx + j]? = q[m.qx + j]?) ∧
+      (∀ j, j < m.nu → (prescribe mobs q u).2[m.ux + j]? = u[m.ux + j]?) ∧
+      (∀ j, j < m.nu → (knownUDot mobs udot)[m.ux + j]? = m.lockedU[j]?)) := by
+  refine ⟨?_, ?_, ?_⟩
+  · intro hl
+    have hq : m.methods.q = .prescribed := by simp [MobIn.methods, instanceMethods, hnq, hl]
+    have hu : m.methods.u = .zero := by simp [MobIn.methods, instanceMethods, hnq, hl]
+    have hd : m.methods.udot = .zero := by simp [MobIn.methods, instanceMethods, hnq, hl]
+    refine ⟨fun j hj => ?_, fun j hj => u_slot_zero hw hm hnq hu j hj, fun j hj => udot_slot_zero hw hud hm hnq hd j hj⟩
+    rw [q_slot_pres hw hm hnq hq j hj]; simp [MobIn.qPoolVals, MobIn.locked, hl]
+  · intro hl
+    have hq1 : m.methods.q ≠ .prescribed := by simp [MobIn.methods, instanceMethods, hnq, hl]
+    have hq2 : m.methods.q ≠ .zero := by simp [MobIn.methods, instanceMethods, hnq, hl]
+    have hd : m.methods.udot = .zero := by simp [MobIn.methods, instanceMethods, hnq, hl]
+    refine ⟨fun j hj => q_slot_untouched hw hm hnq hq1 hq2 j hj, fun j hj => ?_,
+      fun j hj => udot_slot_zero hw hud hm hnq hd j hj⟩
+    by_cases hnz : anyNonzero m.lockedU = true
+    · have hu : m.methods.u = .prescribed := by simp [MobIn.methods, instanceMethods, hnq, hl, hnz]
+      rw [u_slot_pres hw hm hnq hu j hj]; simp [MobIn.uPoolVals, MobIn.locked, hl]
+    · have hnz' : anyNonzero m.lockedU = false := by simpa using hnz
+      have hu : m.methods.u = .zero := by simp [MobIn.methods, instanceMethods, hnq, hl, hnz']
+      rw [u_slot_zero hw hm hnq hu j hj, getElem?_of_not_anyNonzero _ hnz' j (by rw [hw.lenLockedU m hm]; exact hj)]
+  · intro hl
+    have hq1 : m.methods.q ≠ .prescribed := by simp [MobIn.methods, instanceMethods, hnq, hl]
+    have hq2 : m.methods.q ≠ .zero := by simp [MobIn.methods, instanceMethods, hnq, hl]
+    have hu1 : m.methods.u ≠ .prescribed := by simp [MobIn.methods, instanceMethods, hnq, hl]
+    have hu2 : m.methods.u ≠ .zero := by simp [MobIn.methods, instanceMethods, hnq, hl]
+    refine ⟨fun j hj => q_slot_untouched hw hm hnq hq1 hq2 j hj, fun j hj => u_slot_untouched hw hm hnq hu1 hu2 j hj,
+      fun j hj => ?_⟩
+    by_cases hnz : anyNonzero m.lockedU = true
+    · have hd : m.methods.udot = .prescribed := by simp [MobIn.methods, instanceMethods, hnq, hl, hnz]
+      rw [udot_slot_pres hw hud hm hnq hd j hj]; simp [MobIn.udotPoolVals, MobIn.locked, hl]
+    · have hnz' : anyNonzero m.lockedU = false := by simpa using hnz
+      have hd : m.methods.udot = .zero := by simp [MobIn.methods, instanceMethods, hnq, hl, hnz']
+      rw [udot_slot_zero hw hud hm hnq hd j hj, getElem?_of_not_anyNonzero _ hnz' j (by rw [hw.lenLockedU m hm]; exact hj)]
+
+/-- the instance-stage view of a mobilizer whose bookkeeping is `mb` (slots at `qx`, `ux`) -/
+def MobIn.ofMob (qx ux : Nat) (mb : Mob K) (motion : Option MotionDesc) (cb : MobIn K) : MobIn K :=
+  { cb with qx := qx, ux := ux, nq := mb.q.length, nu := mb.u.length, lockLevel := mb.lockLevel,
+            lockedQ := mb.lockedQ, lockedU := mb.lockedU, motion := motion }
+
+/-- **`lockAt(state, v, Position)` ; realize(Instance) ; `System::prescribe` ; realize(Acceleration)**, all on the
+executed definitions: the mobilizer's q slots hold exactly `v`, its u slots and its udot slots hold exactly 0. -/
+theorem prescribe_honours_lockAt_position (hw : WellFormed mobs q.length u.length) (hud : udot.length = u.length)
+    (mb : Mob K) (v : List K) (hv : v ≠ []) (qx ux : Nat) (motion : Option MotionDesc) (cb : MobIn K)
+    (hm : MobIn.ofMob qx ux (mb.lockAt .position v) motion cb ∈ mobs) :
+    (∀ j, j < v.length → (prescribe mobs q u).1[qx + j]? = v[j]?) ∧
+    (∀ j, j < mb.u.length → (prescribe mobs q u).2[ux + j]? = some 0) ∧
+    (∀ j, j < mb.u.length → (knownUDot mobs udot)[ux + j]? = some 0) := by
+  have hnq : (MobIn.ofMob qx ux (mb.lockAt .position v) motion cb).nq ≠ 0 := by
+    simp [MobIn.ofMob, Mob.lockAt, hv]
+  obtain ⟨h, _, _⟩ := prescribe_honours_lock hw hud hm hnq
+  have := h (by simp [MobIn.ofMob, Mob.lockAt])
+  simpa [MobIn.ofMob, Mob.lockAt, Mob.zeros] using this
+
+/-- `lockAt(state, v, Velocity)` resp. `(…, Acceleration)`: u resp. udot slots hold exactly `v` -/
+theorem prescribe_honours_lockAt_velocity (hw : WellFormed mobs q.length u.length) (hud : udot.length = u.length)
+    (mb : Mob K) (v : List K) (hq : mb.q ≠ []) (qx ux : Nat) (motion : Option MotionDesc) (cb : MobIn K)
+    (hm : MobIn.ofMob qx ux (mb.lockAt .velocity v) motion cb ∈ mobs) :
+    (∀ j, j < mb.u.length → (prescribe mobs q u).2[ux + j]? = v[j]?) ∧
+    (∀ j, j < mb.u.length → (knownUDot mobs udot)[ux + j]? = some 0) := by
+  have hnq : (MobIn.ofMob qx ux (mb.lockAt .velocity v) motion cb).nq ≠ 0 := by
+    simp [MobIn.ofMob, Mob.lockAt, hq]
+  obtain ⟨_, h, _⟩ := prescribe_honours_lock hw hud hm hnq
+  have := h (by simp [MobIn.ofMob, Mob.lockAt])
+  simpa [MobIn.ofMob, Mob.lockAt] using this.2
+
+theorem prescribe_honours_lockAt_acceleration (hw : WellFormed mobs q.length u.length) (hud : udot.length = u.length)
+    (mb : Mob K) (v : List K) (hq : mb.q ≠ []) (qx ux : Nat) (motion : Option MotionDesc) (cb : MobIn K)
+    (hm : MobIn.ofMob qx ux (mb.lockAt .acceleration v) motion cb ∈ mobs) :
+    ∀ j, j < mb.u.length → (knownUDot mobs udot)[ux + j]? = v[j]? := by
+  have hnq : (MobIn.ofMob qx ux (mb.lockAt .acceleration v) motion cb).nq ≠ 0 := by
+    simp [MobIn.ofMob, Mob.lockAt, hq]
+  obtain ⟨_, _, h⟩ := prescribe_honours_lock hw hud hm hnq
+  have := h (by simp [MobIn.ofMob, Mob.lockAt])
+  simpa [MobIn.ofMob, Mob.lockAt] using this.2.2
+
+/-- **An enabled Prescribed Motion on an unlocked mobilizer is honoured by the executed model.**
+* Position level: q slots hold `calcPrescribedPosition`, u slots `N⁻¹·calcPrescribedPositionDot`, udot slots
+  `N⁻¹·(calcPrescribedPositionDotDot − Ṅu)`;
+* Velocity level: q untouched, u slots hold `calcPrescribedVelocity`, udot slots `calcPrescribedVelocityDot`;
+* Acceleration level: q and u untouched, udot slots hold `calcPrescribedAcceleration`. -/
+theorem prescribe_honours_motion (hw : WellFormed mobs q.length u.length) (hud : udot.length = u.length)
+    {m : MobIn K} (hm : m ∈ mobs) (hnq : m.nq ≠ 0) (hl : m.lockLevel = .noLevel)
+    (md : MotionDesc) (hmo : m.motion = some md) (hen : md.disabled = false) (hpm : md.method = .prescribed) :
+    (md.level = .position →
+      (∀ j, j < m.nq → (prescribe mobs q u).1[m.qx + j]? = m.cbPos[j]?) ∧
+      (∀ j, j < m.nu → (prescribe mobs q u).2[m.ux + j]? = (matVec m.nInv m.cbPosDot)[j]?) ∧
+      (∀ j, j < m.nu → (knownUDot mobs udot)[m.ux + j]? = (matVec m.nInv (vsub m.cbPosDotDot m.nDotU))[j]?)) ∧
+    (md.level = .velocity →
+      (∀ j, j < m.nq → (prescribe mobs q u).1[m.qx + j]? = q[m.qx + j]?) ∧
+      (∀ j, j < m.nu → (prescribe mobs q u).2[m.ux + j]? = m.cbVel[j]?) ∧
+      (∀ j, j < m.nu → (knownUDot mobs udot)[m.ux + j]? = m.cbVelDot[j]?)) ∧
+    (md.level = .acceleration →
+      (∀ j, j < m.nq → (prescribe mobs q u).1[m.qx + j]? = q[m.qx + j]?) ∧
+      (∀ j, j < m.nu → (prescribe mobs q u).2[m.ux + j]? = u[m.ux + j]?) ∧
+      (∀ j, j < m.nu → (knownUDot mobs udot)[m.ux + j]? = m.cbAcc[j]?)) := by
+  have hmeth : m.methods = calcAllMethods md.level md.method := by
+    simp [MobIn.methods, instanceMethods, hnq, hl, hmo, hen]
+  refine ⟨?_, ?_, ?_⟩
+  · intro hlv
+    have hq : m.methods.q = .prescribed := by rw [hmeth]; simp [calcAllMethods, hlv, hpm]
+    have hu : m.methods.u = .prescribed := by rw [hmeth]; simp [calcAllMethods, hlv, hpm]
+    have hd : m.methods.udot = .prescribed := by rw [hmeth]; simp [calcAllMethods, hlv, hpm]
+    refine ⟨fun j hj => ?_, fun j hj => ?_, fun j hj => ?_⟩
+    · rw [q_slot_pres hw hm hnq hq j hj]; simp [MobIn.qPoolVals, MobIn.locked, hl]
+    · rw [u_slot_pres hw hm hnq hu j hj]; simp [MobIn.uPoolVals, MobIn.locked, hl, hq]
+    · rw [udot_slot_pres hw hud hm hnq hd j hj]; simp [MobIn.udotPoolVals, MobIn.locked, hl, hq]
+  · intro hlv
+    have hq : m.methods.q = .free := by rw [hmeth]; simp [calcAllMethods, hlv, hpm]
+    have hu : m.methods.u = .prescribed := by rw [hmeth]; simp [calcAllMethods, hlv, hpm]
+    have hd : m.methods.udot = .prescribed := by rw [hmeth]; simp [calcAllMethods, hlv, hpm]
+    refine ⟨fun j hj => q_slot_untouched hw hm hnq (by simp [hq]) (by simp [hq]) j hj, fun j hj => ?_, fun j hj => ?_⟩
+    · rw [u_slot_pres hw hm hnq hu j hj]; simp [MobIn.uPoolVals, MobIn.locked, hl, hq]
+    · rw [udot_slot_pres hw hud hm hnq hd j hj]; simp [MobIn.udotPoolVals, MobIn.locked, hl, hq, hu]
+  · intro hlv
+    have hq : m.methods.q = .free := by rw [hmeth]; simp [calcAllMethods, hlv, hpm]
+    have hu : m.methods.u = .free := by rw [hmeth]; simp [calcAllMethods, hlv, hpm]
+    have hd : m.methods.udot = .prescribed := by rw [hmeth]; simp [calcAllMethods, hlv, hpm]
+    refine ⟨fun j hj => q_slot_untouched hw hm hnq (by simp [hq]) (by simp [hq]) j hj,
+      fun j hj => u_slot_untouched hw hm hnq (by simp [hu]) (by simp [hu]) j hj, fun j hj => ?_⟩
+    rw [udot_slot_pres hw hud hm hnq hd j hj]; simp [MobIn.udotPoolVals, MobIn.locked, hl, hq, hu]
+
+/-- **an unlocked mobilizer without an enabled Motion is left alone** by `prescribe` (its q and u slots keep their
+values): "all other q/u untouched" -/
+theorem prescribe_leaves_free_alone (hw : WellFormed mobs q.length u.length)
+    {m : MobIn K} (hm : m ∈ mobs) (hnq : m.nq ≠ 0) (hl : m.lockLevel = .noLevel)
+    (hmo : m.motion = none ∨ ∃ md, m.motion = some md ∧ md.disabled = true) :
+    (∀ j, j < m.nq → (prescribe mobs q u).1[m.qx + j]? = q[m.qx + j]?) ∧
+    (∀ j, j < m.nu → (prescribe mobs q u).2[m.ux + j]? = u[m.ux + j]?) := by
+  have hmeth : m.methods = Methods.allFree := by
+    rcases hmo with h | ⟨md, h, hd⟩ <;> simp [MobIn.methods, instanceMethods, hnq, hl, h, *]
+  exact ⟨fun j hj => q_slot_untouched hw hm hnq (by simp [hmeth, Methods.allFree]) (by simp [hmeth, Methods.allFree]) j hj,
+         fun j hj => u_slot_untouched hw hm hnq (by simp [hmeth, Methods.allFree]) (by simp [hmeth, Methods.allFree]) j hj⟩
+
+/-- and the vectors keep their lengths -/
+theorem prescribe_length (mobs : List (MobIn K)) (q u : List K) :
+    (prescribe mobs q u).1.length = q.length ∧ (prescribe mobs q u).2.length = u.length := by
+  rw [prescribe_fst, prescribe_snd]; exact ⟨walk_length _ _ _ _, walk_length _ _ _ _⟩
+end composed
 
 /-! ## (b) Motion::Sinusoid / Motion::Steady : the reported derivatives are the derivatives -/
 section motions
